@@ -69,10 +69,10 @@ def run(prop, tier, seed, verdict):
             files.append(("%s = %s\n" % (k, rng.choice(parsegen.RETYPES))).encode())
             kinds["one-liner"] = kinds.get("one-liner", 0) + 1
     results, glog = check_c10.run_batch(binary, workdir, files, "c09")
-    bad = [(i, r) for i, r in enumerate(results) if r[0] in ("panic", "crash")]
+    bad = [(i, r) for i, r in enumerate(results) if r[0] in ("panic", "crash", "hang")]
     sigs = set()
     for i, r in bad[:6]:
-        small = minimise(binary, workdir, files[i], lambda x: x in ("panic", "crash"), "min") if r[0] == "panic" else files[i]
+        small = minimise(binary, workdir, files[i], lambda x, want=r[0]: x == want, "min") if r[0] == "panic" else files[i]
         text = small.decode("utf8", "replace")
         key = text.strip()[:200]
         if key in sigs:
@@ -82,7 +82,7 @@ def run(prop, tier, seed, verdict):
                           {"file_hex": small.hex(), "file": text, "outcome": r[0], "function": "config.ParseData", "log": glog[-1500:] if r[0] == "crash" else ""}, True)
     # model correspondence on everything that decoded
     model = check_c10.run_model(results)
-    disag = [(i, results[i][0], model[i]) for i in model if model[i] != results[i][0] and results[i][0] not in ("panic", "crash")]
+    disag = [(i, results[i][0], model[i]) for i in model if model[i] != results[i][0] and results[i][0] not in ("panic", "crash", "hang")]
     # ---- hidi.toml
     hfiles = [open(os.path.join(REPO, "cmd/hidi/hidi-config/hidi.toml"), "rb").read()]
     hb = hfiles[0]
